@@ -37,6 +37,10 @@ CHECKS = {
              text="Bounded-exhaustive: all allowed-capability sets over 2-3 capabilities (incl. empty and unrestricted), tools registered and re-registered with every required-capability subset (SimpleTool and duck-typed), all interleavings to depth 5 (quick) / 7 (thorough) of register / metabolize auto / metabolize forced / execute_tool_call / LLM tool loop with a scripted provider / repair; TLC evaluates NoUnauthorisedRun and RefusalReported on every edge from counting tool bodies.",
              note="Trusted: TLC/SANY, counting tool stubs, scripted provider; refusal inside the LLM loop is read from the error text fed back to the provider.",
              ref="DESIGN.md section 4 C03"),
+ "C20": dict(technique="TLA+ spec (Genome.tla) model-checked with TLC; real Genome objects (parent + child) explored by BFS, every edge judged by TLC (Trace_Genome.tla) with the last-approved-mutation monitor carried by TLC; TLC -simulate behaviours replayed",
+             text="Bounded-exhaustive: 2-3 genes of all relevant gene types and expression levels, both allow_mutations settings, approval callbacks approving none / some / value-1 / all changes, all sequences to depth 6 (quick, node-capped) / 8 (thorough) over mutate, rollback, re-add, silence/activate/set_expression, replicate with every partial mutation map and express with every context, on parent and child; TLC evaluates Immutable, HashFollowsValues, RefusalsLogged, ParentUntouched, ChildDiffers, ExpressExact, RollbackRestores on every edge.",
+             note="Trusted: TLC/SANY, observation through export()/get_hash()/get_statistics()/express(). A refused re-add is not required to be logged (weakest reading, DESIGN.md section 6).",
+             ref="DESIGN.md section 4 C20"),
 }
 NOT_APPLICABLE = []
 
